@@ -118,12 +118,20 @@ def run(ctx, rep):
     rep.trust(*K.TRUSTED_BASE_COMMON, 'numpy ufuncs and arithmetic act elementwise')
     rep.notes.append('C06 PARTIAL: decides C(u,v) = C(v,u) through the AC normal form of each closed form, row independence of the '
                      'vectorised methods (reductions over the batch are enumerated and triaged) and that theta validation dominates '
-                     'every evaluation. Boundary conditions, 2-increasingness, Frechet bounds, the generator identity and ordering '
-                     'in theta are identities between real functions: deciding them needs symbolic or numeric evaluation, i.e. '
-                     'another family of technique; not decided.')
+                     'every evaluation. D4 evaluates the closed forms in an interval domain with IEEE special values over boxes of '
+                     '(theta, u, v): boundary values at 0 and the corner (1,1), range and NaN-freedom are proved where the '
+                     'intervals allow, relational clauses (uniform margins, Frechet bounds) can only be refuted. 2-increasingness, '
+                     'the generator identity and ordering in theta are identities between real functions that intervals cannot '
+                     'carry: not decided.')
     rep.rule('D1.sym', 'the closed-form CDF is invariant under swapping its two arguments (AC normal form)')
     rep.rule('D2.rows', 'no reduction over the batch axis influences the returned values (cumulative_distribution, percent_point)')
     rep.rule('D3.guard', 'check_fit() (and with it check_theta) dominates every read of theta in every evaluation method')
+    rep.rule('D4.values', 'interval abstract interpretation of each closed-form CDF over a partition of (theta, u, v): grounded, C(1,1)=1, '
+             'uniform margins, Frechet bounds, range [0,1] and no NaN are proved, refuted (definite) or left undecided per clause')
+    from . import ivcases
+    ivcases.refine(ctx)
+    n = ivcases.run_family_clauses(ctx, rep, 'D4.values', 'cumulative_distribution', ivcases.cdf_clauses())
+    rep.floor('D4.values', 'family x clause evaluations', n, 21)
     symmetry(ctx, rep, 'D1.sym', 'cumulative_distribution')
     row_independence(ctx, rep, 'D2.rows', ['cumulative_distribution', 'percent_point'])
     l1(ctx, rep, rule='D3.guard', only_classes=set(FAMILIES.values()) | {'copulas.bivariate.base.Bivariate'})
